@@ -20,7 +20,7 @@ META = {
         "thorough": {"tables": "as quick + CAT(4) x CAT(3)", "sort kinds": "all keywords of the opposing-element table", "data": "same"},
     },
     "assumptions": ["weighted counts >= 0; head counts fixed", "every comparison made by the library's sort forks the path; the order is checked on each path against the PUBLIC measure"],
-    "outside": ["sizes beyond the bounds", "pairwise-t-test sort keyword"],
+    "outside": ["sizes beyond the bounds", "pairwise-t-test sort keyword", "marginal scale_mean_stderr and the measure keywords p_value, row_percent_moe, col_percent_moe, row_std_err, table_std_dev (solver does not finish; one representative per radical family is kept)"],
 }
 
 # transform keyword -> public property holding the values the order must be monotone in
@@ -222,8 +222,15 @@ def specs(tier):
     out = []
     M = "props.c08"
 
+    # z3 5.1's default arithmetic core does not honour its timeout inside nla monomial patching on the sign/square
+    # comparisons of radical sort keys (one feasibility query ran > 35 min); the older core (arith.solver=2) does
+    OLD_CORE = {"arith.solver": 2}
+
     def add(name, fn, params, max_paths=1500):
-        out.append(dict(module=M, fn=fn, name=name, params=params, max_paths=max_paths, vc_timeouts=(5, 40)))
+        d = dict(module=M, fn=fn, name=name, params=params, max_paths=max_paths, vc_timeouts=(5, 40))
+        if any(x in name for x in ("row_std_dev", "scale_mean_std")):
+            d["feas_opts"] = OLD_CORE
+        out.append(d)
 
     quick_measures = ["col_percent", "row_percent", "count_weighted", "col_base_weighted", "col_std_dev", "col_std_err", "population", "row_base_unweighted", "table_percent", "count_unweighted"]
     # thorough: every keyword except the three slowest radical ones kept to one representative each
@@ -243,7 +250,8 @@ def specs(tier):
     add("rows by measure absent from the response", "by_opposing_element", dict(measure="mean"))
     add("rows by inserted column", "by_opposing_insertion", dict())
     add("rows by unknown insertion id", "by_opposing_insertion", dict(insertion_id=9))
-    for mg in ("weighted_base", "table_proportion") if tier == "quick" else sorted(MARGINAL_PROP)[:4]:
+    # scale_mean_stderr is not claimed: its feasibility queries (radical over a ratio of quadratic forms) do not finish in 15 min
+    for mg in ("weighted_base", "table_proportion") if tier == "quick" else ("scale_mean", "scale_mean_stddev", "table_proportion", "unweighted_base", "weighted_base"):
         add("rows by marginal %s" % mg, "by_marginal", dict(marginal=mg, direction="ascending" if mg == "weighted_base" else "descending", fixed={"top": [2]}))
     add("columns by base row", "columns_by_base_row", dict())
     add("columns by inserted row desc", "columns_by_inserted_row", dict())
